@@ -321,6 +321,12 @@ func (c *Conn) Read(p []byte) (int, error) {
 		c.Net.logf(c, "readerr", 0, nil)
 		return 0, &net.OpError{Op: "read", Net: "sim", Err: ErrInjRead}
 	}
+	if len(p) == 0 && !c.closed {
+		// like internal/poll.(*FD).Read: a zero-byte read returns at once, without
+		// waiting for data and without looking at the deadline
+		simrt.Fault("zero_length_read")
+		return 0, nil
+	}
 	h := c.rd
 	for {
 		if c.closed {
